@@ -89,3 +89,7 @@ impl BooleanNetwork {
     #[verifier::external_body]
     pub fn get_parameter(&self, id: ParameterId) -> (r: &Parameter) ensures par_name(r) == pname(self, id) { unimplemented!() }
 }
+// std functions without a vstd specification that a converter change is likely to use
+pub assume_specification<T, A>[ <std::boxed::Box<T, A> as std::convert::AsRef<T>>::as_ref ](b: &std::boxed::Box<T, A>) -> (r: &T)
+    where A: std::alloc::Allocator, T: std::marker::MetaSized + ?Sized
+    ensures r == &**b;
